@@ -5,6 +5,7 @@
 From Coq Require Import List Ascii String ZArith NArith Bool.
 From Anthem Require Import Base.ISet Base.Fresh Syntax.Fol Syntax.Tff Sem.TffSem Sem.TffWt Model.Problem
   Model.TptpPrint Gen.Preamble.
+From Anthem Require Export Model.ClosedFormula.
 Import ListNotations.
 Open Scope list_scope.
 Open Scope string_scope.
@@ -138,58 +139,8 @@ Definition ident_ok (p : problem) : bool :=
   && forallb (fun a => formula_vars_ok (pf_formula a)) (pb_formulas p)
   && forallb (fun a => is_lower_word (pf_name a)) (pb_formulas p).
 
-(* closed formulas of the parser image: every variable occurrence lies in the scope of a binder
-   for exactly that variable (name and sort), and every quantifier binds at least one variable.
-   [B] is the list of variables bound so far. *)
-Definition bound (B : list var) (v : var) : bool := memb var_dec v B.
-Fixpoint iterm_closed (B : list var) (t : iterm) : bool :=
-  match t with
-  | INum _ | IFun _ => true
-  | IVar x => bound B (mkvar x SInteger)
-  | IUn _ a => iterm_closed B a
-  | IBin _ l r => iterm_closed B l && iterm_closed B r
-  end.
-Definition sterm_closed (B : list var) (t : sterm) : bool :=
-  match t with SVar x => bound B (mkvar x SSymbol) | _ => true end.
-Definition gterm_closed (B : list var) (t : gterm) : bool :=
-  match t with
-  | GVar x => bound B (mkvar x SGeneral)
-  | GInt a => iterm_closed B a
-  | GSym a => sterm_closed B a
-  | _ => true
-  end.
-Definition aformula_closed (B : list var) (a : aformula) : bool :=
-  match a with
-  | ATrue | AFalse => true
-  | AAtom _ ts => forallb (gterm_closed B) ts
-  | ACmp t gs => gterm_closed B t && forallb (fun g => gterm_closed B (gterm_of g)) gs
-  end.
-Fixpoint closedb (B : list var) (f : formula) : bool :=
-  match f with
-  | FAtomic a => aformula_closed B a
-  | FNot g => closedb B g
-  | FBin _ l r => closedb B l && closedb B r
-  | FQ _ vs g => negb (Nat.eqb (List.length vs) 0) && closedb (rev vs ++ B)%list g
-  end.
-Definition closed_formula (f : formula) : bool := closedb [] f.
-(* parser image: every quantifier binds at least one variable *)
-Fixpoint binders_nonempty (f : formula) : bool :=
-  match f with
-  | FAtomic _ => true
-  | FNot g => binders_nonempty g
-  | FBin _ l r => binders_nonempty l && binders_nonempty r
-  | FQ _ vs g => negb (Nat.eqb (List.length vs) 0) && binders_nonempty g
-  end.
-
-(* parser image: every comparison has at least one guard (`t` alone is not a formula) *)
-Fixpoint cmps_nonempty (f : formula) : bool :=
-  match f with
-  | FAtomic (ACmp _ gs) => negb (Nat.eqb (List.length gs) 0)
-  | FAtomic _ => true
-  | FNot g => cmps_nonempty g
-  | FBin _ l r => cmps_nonempty l && cmps_nonempty r
-  | FQ _ _ g => cmps_nonempty g
-  end.
+(* [closed_formula], [binders_nonempty], [cmps_nonempty]: Model/ClosedFormula.v (re-exported; they do not
+   depend on the regenerated preamble) *)
 
 (* the constant signature of a problem (Sem/TffSem.v [csig]): the constants it declares with
    `type_symbol_i` are symbolic constants and denote themselves, those it declares with
@@ -203,4 +154,4 @@ Definition pipeline (raw : problem) (d : decomposition) : list problem :=
   decompose (create_unique_formula_names (rename_conflicting_symbols
     (add_annotated_formulas (with_name (pb_name raw)) (pb_formulas raw)))) d.
 
-(* EXTRACT: closed_formula pipeline problem_display emit ident_ok symbol_order sort_strings windows2 problem_csig cmps_nonempty *)
+(* EXTRACT: pipeline problem_display emit ident_ok symbol_order sort_strings windows2 problem_csig *)
